@@ -472,15 +472,13 @@ func runHbPeriods(topo *Topo, c HbCfg) HbLine {
 		timeout := time.Duration(ms) * time.Millisecond
 		s, _, obs, ent, _ := hbSetup(topo, timeout)
 		time.Sleep(time.Millisecond)
-		obs.mu.Lock()
-		if len(obs.periods) != 1 || obs.periods[0] <= 0 || obs.periods[0] > timeout {
-			line.PeriodOk = false
-			line.Panic += fmt.Sprintf("timeout %v: ticker periods %v; ", timeout, obs.periods)
-		}
-		obs.mu.Unlock()
-		// the announced timeout in the data is the configured one
+		// the announced timeout is the configured one in the resolution of its textual form (0.1 s), never more; the
+		// period does not exceed what was ANNOUNCED
+		announced := time.Duration(0)
 		if d, ok := ent.FeatureOfTypeAndRole(model.FeatureTypeTypeDeviceDiagnosis, model.RoleTypeServer).DataCopy(model.FunctionTypeDeviceDiagnosisHeartbeatData).(*model.DeviceDiagnosisHeartbeatDataType); ok && d != nil && d.HeartbeatTimeout != nil {
-			if got, err := d.HeartbeatTimeout.GetTimeDuration(); err != nil || got != timeout {
+			got, err := d.HeartbeatTimeout.GetTimeDuration()
+			announced = got
+			if err != nil || got > timeout || got <= timeout-100*time.Millisecond {
 				line.PeriodOk = false
 				line.Panic += fmt.Sprintf("announced timeout %v for %v; ", got, timeout)
 			}
@@ -488,6 +486,12 @@ func runHbPeriods(topo *Topo, c HbCfg) HbLine {
 			line.PeriodOk = false
 			line.Panic += "no heartbeat data; "
 		}
+		obs.mu.Lock()
+		if len(obs.periods) != 1 || obs.periods[0] <= 0 || obs.periods[0] > timeout || obs.periods[0] > announced {
+			line.PeriodOk = false
+			line.Panic += fmt.Sprintf("timeout %v announced as %v: ticker periods %v; ", timeout, announced, obs.periods)
+		}
+		obs.mu.Unlock()
 		ent.HeartbeatManager().StopHeartbeat()
 		s.Close()
 		spine.VerifSetHook(nil)
